@@ -388,6 +388,37 @@ pub fn run(ctx: &Ctx) {
         v
     }, |c| super::c15::check_reuse(c).map_err(|mut f| { f.key = format!("{} input=object-reused", f.key); f }));
 
+    ctx.listed("initiator_without_a_drawn_scalar", "an initiator object on which exchange_1 was never called is offered (R_B, S_B) forged for the ephemeral scalar 0 (R_A = O, x1 = y1 = 0; then U = [t_B]P_A needs no secret of the initiator): exchange_3 must not complete — it has no scalar that a generator produced. An error or a panic both count as refusal (the statement of C20 does not list the key exchange), Ok is the violation", || (0..6u64).collect::<Vec<u64>>(), |seed: &u64| {
+        let pr = r2::params();
+        let n = &pr.n;
+        let (da, db) = (sm2_key(*seed % 5), sm2_key(*seed % 5 + 7));
+        let (pa, pb) = (r2::g_mul(&da), r2::g_mul(&db));
+        let mk = |e: String| Fail { key: "harness: key construction".into(), detail: e };
+        let (lpa, lpb) = (lib_pk(&pa).map_err(mk)?, lib_pk(&pb).map_err(mk)?);
+        let ska = lib_sk(&da).map_err(mk)?;
+        let klen = [16usize, 1, 8, 32, 48, 17][(*seed % 6) as usize];
+        let (ida, idb) = ("alice", "bob");
+        let (za, zb) = (r2::za(ida.as_bytes(), &pa), r2::za(idb.as_bytes(), &pb));
+        // the responder's side for R_A = O
+        let rb = from_be(&expand_bytes(*seed ^ 0x14b, 32)) % (n - 1u32) + 1u32;
+        let rb_pt = r2::g_mul(&rb);
+        let (x2, y2) = r2::xy(&rb_pt).unwrap();
+        let tb = (&db + r2::x_bar(&from_be(&x2)) * &rb) % n;
+        let v = pr.curve.mul(&tb, &pa);
+        let Some((xv, yv)) = r2::xy(&v) else { return pass(false, "V-is-infinity") };
+        let zero = [0u8; 32];
+        let inner = crate::refimpl::sm3::sm3_parts(&[&xv, &za, &zb, &zero, &zero, &x2, &y2]);
+        let s_b = crate::refimpl::sm3::sm3_parts(&[&[0x02], &yv, &inner]);
+        let mut alice = Exchange::new(klen, Some(ida), &lpa, &ska, Some(idb), &lpb).map_err(|e| Fail { key: "entry=Exchange::new input=valid outcome=err".into(), detail: format!("{:?}", e) })?;
+        gm_sm2::verif_hooks::start_recording();
+        let o = outcome(|| alice.exchange_3(&lib_point(&rb_pt, &BigUint::one()), s_b));
+        let rec = gm_sm2::verif_hooks::take_recorded();
+        match o {
+            Outcome::Ok(_) => fail("entry=Exchange::exchange_3 input=no-exchange_1-before outcome=completed-without-a-scalar", format!("klen={}: exchange_3 on an object that never drew an ephemeral scalar accepted a confirmation forged for r_A = 0 ({} scalars drawn during the call)", klen, rec.len())),
+            _ => pass(true, "refused"),
+        }
+    });
+
     ctx.listed_seq("bit_balance", "per operation: ones-count of every bit position within 8 sigma of the exact uniform expectation", || ALL_KINDS.iter().map(|k| Stat { kind: *k }).collect(), check_stats);
     ctx.listed_seq("global_freshness", "no scalar value occurs twice among all observed scalars of the run", || vec![0u8], check_global_freshness);
 
